@@ -627,7 +627,7 @@ func (e *escaper) sameEdits(e1 *escaper, n *parse.ListNode) error {
 				if !ok1 {
 					s1 = m.Name
 				}
-				if s != s1 {
+				if s != s1 && e.rewriteOf(s, 0) != e1.rewriteOf(s1, 0) {
 					err = fmt.Errorf("%v is called in different contexts in the first and in later iterations (%q, %q)", m, s, s1)
 				}
 			case *parse.TextNode:
@@ -656,6 +656,66 @@ func (e *escaper) sameEdits(e1 *escaper, n *parse.ListNode) error {
 	}
 	walk(n)
 	return err
+}
+
+// rewriteOf renders the named template the way it will read once the pending edits of e
+// are applied to it and to the templates it calls: two context-specific copies of a
+// template with the same rendering are interchangeable.
+func (e *escaper) rewriteOf(name string, depth int) string {
+	t := e.template(name)
+	if t == nil || t.Tree == nil || depth > 8 {
+		return "?" + name
+	}
+	var b strings.Builder
+	var walk func(l *parse.ListNode)
+	walk = func(l *parse.ListNode) {
+		if l == nil {
+			return
+		}
+		for _, m := range l.Nodes {
+			switch m := m.(type) {
+			case *parse.ActionNode:
+				b.WriteString(m.String())
+				if s, ok := e.actionNodeEdits[m]; ok {
+					b.WriteString("|" + strings.Join(s, "|"))
+				}
+			case *parse.TemplateNode:
+				callee := m.Name
+				if s, ok := e.templateNodeEdits[m]; ok {
+					callee = s
+				}
+				b.WriteString("{{template " + e.rewriteOf(callee, depth+1) + "}}")
+			case *parse.TextNode:
+				if s, ok := e.textNodeEdits[m]; ok {
+					b.Write(s)
+				} else {
+					b.Write(m.Text)
+				}
+			case *parse.IfNode:
+				b.WriteString("{{if " + m.Pipe.String() + "}}")
+				walk(m.List)
+				b.WriteString("{{else}}")
+				walk(m.ElseList)
+				b.WriteString("{{end}}")
+			case *parse.RangeNode:
+				b.WriteString("{{range " + m.Pipe.String() + "}}")
+				walk(m.List)
+				b.WriteString("{{else}}")
+				walk(m.ElseList)
+				b.WriteString("{{end}}")
+			case *parse.WithNode:
+				b.WriteString("{{with " + m.Pipe.String() + "}}")
+				walk(m.List)
+				b.WriteString("{{else}}")
+				walk(m.ElseList)
+				b.WriteString("{{end}}")
+			default:
+				b.WriteString(m.String())
+			}
+		}
+	}
+	walk(t.Tree.Root)
+	return b.String()
 }
 
 // escapeListConditionally escapes a list node but only preserves edits and
